@@ -220,7 +220,10 @@ fn header_block(r: &mut Rng, sw: &Swarm, extra: &[(Vec<u8>, Vec<u8>)], v: &mut V
         lines.insert(at, Some(e.clone()));
     }
     let total = lines.len();
+    let mut after_invalid = false;
     for (i, l) in lines.into_iter().enumerate() {
+        let was_after_invalid = after_invalid;
+        after_invalid = false;
         let (name, val) = match l {
             Some(e) => e,
             None => {
@@ -256,10 +259,15 @@ fn header_block(r: &mut Rng, sw: &Swarm, extra: &[(Vec<u8>, Vec<u8>)], v: &mut V
                         if r.chance(3, 4) {
                             v.extend(value(r, sw));
                         }
+                        if invalid_msg && r.chance(1, 4) {
+                            // an offending byte inside a continuation line of the folded header
+                            v.push(*r.pick(b"\x01\x7f\0\x0b"));
+                            after_invalid = true;
+                        }
                     }
                     eol(r, sw, v);
                 }
-                2 if i == 0 => {
+                2 if i == 0 || was_after_invalid => {
                     // whitespace before the first header name, possibly a whitespace-only line
                     v.push(if r.chance(1, 2) { b' ' } else { b'\t' });
                     v.extend(wsrun(r, 2));
@@ -290,6 +298,7 @@ fn header_block(r: &mut Rng, sw: &Swarm, extra: &[(Vec<u8>, Vec<u8>)], v: &mut V
         }
         if invalid_msg && r.chance(1, 3) {
             strict = false;
+            after_invalid = true;
             match r.below(7) {
                 0 => {
                     v.extend_from_slice(&name); // missing colon
@@ -705,9 +714,11 @@ pub fn apply_fault(r: &mut Rng, wire: &mut Vec<u8>, heads: &[(usize, usize)]) ->
             if wire[at] != byte {
                 wire[at] = byte;
                 // sometimes a second boundary byte right after it or exactly 32 bytes away
-                if r.chance(1, 4) {
-                    let second = *r.pick(&[0x08u8, 0x7f, 0x80, 0xe9, b'\t']);
-                    let off = *r.pick(&[1usize, 1, 8, 16, 32, 32, 64]);
+                if r.chance(1, 3) {
+                    // a second boundary byte — the same one again half of the time, as a repeated
+                    // corruption would produce — 1/8/16/24/32/64 bytes away
+                    let second = if r.chance(1, 2) { byte } else { *r.pick(&[0x08u8, 0x7f, 0x80, 0xe9, b'\t']) };
+                    let off = *r.pick(&[1usize, 1, 8, 8, 16, 24, 32, 32, 64]);
                     if at + off < b {
                         wire[at + off] = second;
                     } else if at >= a + off {
@@ -804,9 +815,11 @@ fn draw_cfg(r: &mut Rng, o: &GenOpts) -> u8 {
     if let Some(c) = o.force_cfg {
         return c;
     }
-    let c = match r.below(4) {
-        0 => 0,
-        1 => 1 << r.below(7),
+    let c = match r.below(8) {
+        0 | 1 => 0,
+        2 | 3 => 1 << r.below(7),
+        // all header options on (the three-way interactions), possibly minus one
+        4 => 0x7f & !(if r.chance(1, 2) { 0 } else { 1u8 << r.below(7) }),
         _ => r.below(128) as u8,
     };
     c & o.cfg_mask
